@@ -293,6 +293,34 @@ def childAllowed (p c : Kind) : Bool :=
 
 def canHaveChildren : Kind → Bool | .elem _ | .doc | .attr _ _ => true | _ => false
 
+/-- the reference node must be a child of the parent -/
+def refMissing (pn : Node) (ref : Option Nat) : Bool :=
+  match ref with
+  | some r => !(pn.kids.any (·.id == r))
+  | none => false
+
+/-- the new child is its own reference: it goes in front of the node that follows it -/
+def adjustRef (pn : Node) (c : Nat) (ref : Option Nat) : Option Nat :=
+  match ref with
+  | some r => if r == c then
+      (match (pn.kids.dropWhile (·.id != c)).drop 1 with | n :: _ => some n.id | [] => none) else some r
+  | none => none
+
+/-- a document holds one element and one document type, the document type first -/
+def docRefuses (pn : Node) (ck : Kind) (c : Nat) (ref' : Option Nat) : Bool :=
+  pn.kind == .doc && (match ck with
+    | .elem _ => pn.kids.any (fun k => (match k.kind with | .elem _ => true | _ => false) && k.id != c)
+    | .doctype _ =>
+        pn.kids.any (fun k => match k.kind with | .doctype _ => true | _ => false) ||
+        (match pn.kids.findIdx? (fun k => match k.kind with | .elem _ => true | _ => false) with
+         | none => false
+         | some ei => match ref' with
+           | none => true
+           | some r => match pn.kids.findIdx? (·.id == r) with
+             | some ri => decide (ei < ri)
+             | none => true)
+    | _ => false)
+
 /-- `insertBefore` / `appendChild`: checks in the order the library makes them, then the move -/
 def insertChild (s : St) (p c : Nat) (ref : Option Nat) : St × Res :=
   match s.find p, s.find c with
@@ -300,22 +328,12 @@ def insertChild (s : St) (p c : Nat) (ref : Option Nat) : St × Res :=
     if !canHaveChildren pn.kind then (s, .err .hierarchy) else
     -- the document node itself has no owner document: as an argument it is "of another document"
     if c == s.doc.id || ref == some s.doc.id then (s, .err .wrongDoc) else
-    -- the reference node must be a child of the parent
-    if (match ref with | some r => !(pn.kids.any (·.id == r)) | none => false) then (s, .err .notFound) else
-    -- the new child is its own reference: it goes in front of the node that follows it
-    let ref' : Option Nat := match ref with
-      | some r => if r == c then
-          (match (pn.kids.dropWhile (·.id != c)).drop 1 with | n :: _ => some n.id | [] => none) else some r
-      | none => none
+    if refMissing pn ref then (s, .err .notFound) else
     if s.isAncestorOrSelf c p then (s, .err .hierarchy) else
     if !childAllowed pn.kind cn.kind then (s, .err .hierarchy) else
-    -- a document holds one element and one document type
-    if pn.kind == .doc && (match cn.kind with
-        | .elem _ => pn.kids.any (fun k => (match k.kind with | .elem _ => true | _ => false) && k.id != c)
-        | .doctype _ => pn.kids.any (fun k => match k.kind with | .elem _ => true | .doctype _ => true | _ => false)
-        | _ => false) then (s, .err .hierarchy) else
+    if docRefuses pn cn.kind c (adjustRef pn c ref) then (s, .err .hierarchy) else
     match s.detach c with
-    | (s1, some x) => (s1.update p (Node.mapKids (insertBeforeL x ref')), .node c)
+    | (s1, some x) => (s1.update p (Node.mapKids (insertBeforeL x (adjustRef pn c ref))), .node c)
     | (_, none) => (s, .err .notFound)
   | _, _ => (s, .err .notFound)
 
